@@ -3,7 +3,7 @@
 
     consts                      → pollMs=<n> drainMs=<n> idleSecs=<n> readDlMs=<n> waits=<n> closes=<n>
     variant                     → release=<asFound|afterDrain> closeIdles=<asFound|kickOnly> invokeDec=<deferred|lastStatement|beforeWrite>   (what the extractor saw)
-    admits <asFound|fixed|atomic|repaired|leak|early|tree> <N> <Q> <budget> <event>…
+    admits <asFound|fixed|atomic|repaired|leak|early|notick|tree> <N> <Q> <budget> <event>…
         → ok <maxStates> <finalStates>        the LTS has a run with exactly this visible history
         → reject <i> <event> <states>         no run performs the first i events and then event i
         → budget <i>                          state set exceeded the budget (nothing decided)
@@ -198,6 +198,7 @@ def tauActions (fine : Bool) (s : State) : List Action :=
             (if s.isClosed then [Action.readErr c false] else [])
         | .parse => [.dispatch c]
         | .sending _ => [.enqueue c]
+        | .drainWait => [.drainTick c]
         | .draining => [.drainClose c]
         | .closed => []
       let hs : List Action := (List.range k.reqs.length).flatMap fun i =>
@@ -243,8 +244,21 @@ def macroPass (cfg : Cfg) (s : State) : List State :=
           | none => y) [s0]
     after.filterMap fun x => step cfg x .ciEnd
 
+/-- The first instants of `Shutdown` take microseconds (store `isClosed`, `OnShutdown`, create the
+ticker; the accept loop wakes up from its expired deadline and leaves), everything else in the model
+happens on a scale of 100 ms or more. The search therefore lets nothing else happen internally while one
+of these steps is pending. Like the other restrictions this can only lose runs. -/
+def urgent (cfg : Cfg) (s : State) : List State :=
+  match s.spc with
+  | .called => (step cfg s .setClosed).toList
+  | .onShutdown =>
+    [Action.acceptExit, .closeMsg, .onShutdownRet].filterMap (step cfg s)
+  | _ => if s.isClosed then (step cfg s .acceptExit).toList else []
+
 /-- all τ-successors of `s` -/
 def tauSuccs (cfg : Cfg) (fine : Bool) (s : State) : List State :=
+  let u := urgent cfg s
+  if !u.isEmpty then u else
   (tauActions fine s).filterMap (step cfg s) ++
     (if fine then
       (match s.pass with
@@ -254,7 +268,8 @@ def tauSuccs (cfg : Cfg) (fine : Bool) (s : State) : List State :=
 
 /-- ghost fields that no guard reads are erased so that equal behaviours are merged -/
 def erase (s : State) : State :=
-  { s with msgTo := [], lastPass := [], conns := s.conns.map fun k => { k with sent := [], byIdles := false } }
+  { s with msgTo := [], lastPass := [], fpNotified := false, conns := s.conns.map fun k =>
+             { k with sent := [], byIdles := false, missedClosed := false, lateReg := false, sawNotify := false } }
 
 /-- every enabled deferred `numInvoke--` is executed at once. Doing it early only lowers `numInvoke`
 and frees workers earlier; whatever a later `numInvoke > 0` would have prevented (a close) is an
@@ -334,6 +349,7 @@ def parseCfg (v : String) (n q : Nat) : Option Cfg :=
   | "repaired" => some (repaired (poolOf n q))
   | "leak" => some { repaired (poolOf n q) with decDeferred := false }
   | "early" => some { repaired (poolOf n q) with decDeferred := false, decEarly := true }
+  | "notick" => some { repaired (poolOf n q) with drainFirstTick := false }
   | "tree" => some (treeCfg (poolOf n q))
   | _ => none
 
@@ -350,7 +366,7 @@ def parseAct (tok : String) : Option Action :=
       match k with
       | "ac" => some (.accept a) | "rg" => some (.register a) | "st" => some (.stamp a)
       | "ag" => some (.age a) | "dp" => some (.dispatch a) | "eq" => some (.enqueue a)
-      | "dc" => some (.drainClose a) | "cv" => some (.ciVisit a) | "rM" => some (.recvMsg a)
+      | "dc" => some (.drainClose a) | "dt" => some (.drainTick a) | "cv" => some (.ciVisit a) | "rM" => some (.recvMsg a)
       | "rX" => some (.recvEof a)
       | _ => none
     | none => none
@@ -409,7 +425,8 @@ def handle (ws : List String) : String :=
     let r := if c.releaseAfterDrain then "afterDrain" else "asFound"
     let ci := match c.ci with | .asFound => "asFound" | .atomic => "atomic" | .kickOnly => "kickOnly"
     let d := if c.decDeferred then "deferred" else if c.decEarly then "beforeWrite" else "lastStatement"
-    s!"release={r} closeIdles={ci} invokeDec={d}"
+    let t := if c.drainFirstTick then "afterTick" else "beforeTick"
+    s!"release={r} closeIdles={ci} invokeDec={d} drainTest={t}"
   | "admits" :: v :: n :: q :: b :: toks =>
     match parseNat? n, parseNat? q, parseNat? b with
     | some n, some q, some b =>
